@@ -107,6 +107,16 @@ def run(ctx):
         res.site(key, bodycap, {"variant": v, "body_capable": bodycap, "arm": k, "verdict": "ok" if ok else "VIOLATION"} if bodycap and len(res.samples) < 12 or not ok else None)
         if not ok:
             res.find(key, f.loc(m["sp"]), "Instruction::%s can be a body instruction but the CFG builder %s: writing the blocks back does not reproduce the body" % (v, "skips it" if k == "skip" else "does not classify it explicitly"), "a body containing an Instruction::%s" % v)
+    # which kinds end a block: exactly the four control transfers; any other kind classified as a terminator disappears
+    # from the block body (only JUMP* / HALT can be written back from a terminator) and splits the body where no jump is
+    key = "K8|terminator-kinds"
+    tk = sorted(v for v, k in kinds.items() if k == "terminator")
+    lk = sorted(v for v, k in kinds.items() if k == "label")
+    # (the Label arm closes the running block with a Continue terminator, so it is classified with them)
+    ok = sorted(set(tk) | set(lk)) == sorted(set(EXPECT) | {"Label"})
+    res.site(key, True, {"terminator_kinds": tk, "label_kinds": lk, "verdict": "ok" if ok else "VIOLATION"})
+    if not ok:
+        res.find(key, f.loc(m["sp"]), "the CFG builder closes a block on %s; only %s end a block and only Label starts one" % (sorted(set(tk) | set(lk)), sorted(EXPECT)), "`X 0; WAIT; X 1` comes back as two blocks and the WAIT is gone")
     res.count("instruction_variants", len(allv), floor=40)
     res.count("body_capable_variants", len(body_variants), floor=25)
     # offsets: an instruction kind that stays in the program body but is left out of the blocks (INCLUDE, by design of the
